@@ -120,13 +120,7 @@ PROP = C01()
 
 MANIFEST = {
     'design_ref': 'DESIGN.md §4.0, §4 C01',
-    'technique': 'Lean 4 pagination model (PM) mirrored from block.py/page.py, exact document-level correspondence with '
-                 'the real layout; theorems on the paragraph segment (lines contiguous from the resume position)',
-    'text': 'Proved for all paragraphs, geometries, orphans/widows: a paragraph fragment holds exactly the consecutive '
-            'lines from its resume position and hands over the next line (nothing lost, duplicated, reordered by line '
-            'breaking across pages). The whole pagination (blocks + paragraphs) is an executable Lean model compared '
-            'exactly with the real layout on generated documents; block-level conservation is carried by that '
-            'correspondence (theorem in progress).',
-    'note': 'Partial: beyond the block/paragraph grammar (floats, tables, columns, flex, grid, footnotes) nothing is '
-            'claimed yet. Known finding: fixed-height blocks forget overflowing children (F11).',
+    'technique': 'Lean 4 pagination model mirrored from block.py/page.py with unbounded conservation theorems (segment, pages_conserve); exact document-level correspondence; verified trace checker on the wide grammar',
+    'text': 'Proved for ALL documents of the block/paragraph grammar (any nesting, geometry, break values, orphans/widows >= 1, named pages, box-decoration-break; no fixed heights): the fragment returned by the layout of a box plus what its resume position designates is exactly what was left of the box (C01.segment, by mutual induction over the whole layout incl. find_earlier_page_break), hence the concatenation of the lines of all pages is the list of all lines of the document, in order, each once (C01.pages_conserve). The model is compared exactly with the real layout on generated documents. Beyond that grammar (inline markup, lists, tables, columns, flex, grid, floats, positioned boxes, footnotes) traces of real renders are checked by a Lean checker with a soundness theorem (exactly once, per-container order, display:none absent, consecutive pages).',
+    'note': 'Trusted: Lean kernel, the hand transcription Model/Paginate.lean (tied to block.py/page.py only by the sampled exact correspondence), Pango replaced by opaque lines. The wide-grammar part is sampled trace validation, not a theorem about the implementation. Known findings (printed, not alarms): fixed-height blocks forget overflowing children; out-of-flow box cut at the last page is lost; flex/grid fragmentation loses content; float / footnote / table-in-columns duplications.',
 }
